@@ -182,9 +182,10 @@ Print Assumptions C08_utf8_register.
    PROVED below, each for every well-formed buffer, valid cursor and count: x X D (C08_refines_x_X_D_partial), ~
    (C08_refines_tilde_partial), r (C08_refines_replace_partial), p P of one-line character-wise text and of
    line-wise text (C08_refines_put_chars_partial, C08_refines_put_lines_partial), i a with plain typed text
-   (C08_refines_insert_plain_partial).  The references are the small functions ref_span, ref_line_delete,
+   (C08_refines_insert_plain_partial), Y (C08_refines_Y_partial), s C with plain typed text
+   (C08_refines_s_C_plain_partial).  The references are the small functions ref_span, ref_line_delete,
    ref_tilde, ref_replace, ref_put_off, ref_put_row, ref_ins_off of ViDefs.v on the BODY of the cursor line.
-   MISSING: C s S Y J g~ gu gU < > with arbitrary motions, I A o O, inserts containing editing keys, newlines or only
+   MISSING: S J and d c y g~ gu gU < > with arbitrary motions, I A o O, inserts containing editing keys, newlines or only
    blanks (autoindent), puts of character-wise text containing a newline, and the composition over whole
    programs; the sticky column and the window top are not part of the statements.  Those commands are mirrored
    only and tied to the independent reference Ref8 and to the code by the correspondence run. *)
@@ -264,6 +265,31 @@ Theorem C08_refines_insert_plain_partial : forall rows e (append : bool) typed e
   s_regs e1 = s_regs e /\ v_row (s_vs e1) = v_row s /\ v_off (s_vs e1) = off + slen typed - 1.
 Proof. exact refines_insert_plain. Qed.
 Print Assumptions C08_refines_insert_plain_partial.
+(* Y / yy with a count: the buffer and the cursor stay, the register holds the n lines from the cursor row (clamped
+   to the last line), line-wise *)
+Theorem C08_refines_Y_partial : forall rows e y cnt e1 l0, plain_reg y ->
+  let b := s_buf e in let s := s_vs e in
+  buf_wf b -> cursor_ok b (v_row s) (v_off s) -> getl b (v_row s) = Some l0 -> 0 <= cnt ->
+  exec1 rows (c_Y y cnt) e = Some e1 ->
+  let r2 := Z.min (v_row s + Z.max 1 cnt - 1) (blen b - 1) in
+  s_buf e1 = b /\ reg_get (s_regs e1) y = Some (flat (concat (rows_between b (v_row s) (r2 + 1))), true) /\
+  v_row (s_vs e1) = v_row s /\ v_off (s_vs e1) = v_off s.
+Proof. exact refines_Y. Qed.
+Print Assumptions C08_refines_Y_partial.
+(* s (with a count) and C typing plain text that contains a non-blank: the span x / D would remove is replaced by
+   exactly the typed text, the register holds the removed characters, the cursor lands on the last typed character *)
+Theorem C08_refines_s_C_plain_partial : forall rows e (toend : bool) y cnt typed e1 body, plain_reg y ->
+  let b := s_buf e in let s := s_vs e in
+  buf_wf b -> cursor_ok b (v_row s) (v_off s) -> getl b (v_row s) = Some (body ++ [nlc]) -> 0 <= cnt ->
+  forallb plain_key typed = true -> existsb (fun c => negb (is_blankc c)) typed = true ->
+  exec1 rows (if toend then c_C y cnt typed else c_s y cnt typed) e = Some e1 ->
+  let o := v_off s in
+  let z := if toend then Z.of_nat (length body) else Z.min (o + Z.max 1 cnt) (Z.of_nat (length body)) in
+  s_buf e1 = set_row b (v_row s) [firstn (Z.to_nat o) body ++ typed ++ skipn (Z.to_nat z) body ++ [nlc]] 1 /\
+  reg_get (s_regs e1) y = Some (flat (firstn (Z.to_nat (z - o)) (skipn (Z.to_nat o) body)), false) /\
+  v_row (s_vs e1) = v_row s /\ v_off (s_vs e1) = o + slen typed - 1.
+Proof. exact refines_change_plain. Qed.
+Print Assumptions C08_refines_s_C_plain_partial.
 Local Open Scope N_scope.
 
 Example C08_nonvacuous :
